@@ -206,7 +206,7 @@ func (e *env) query(text string) (*qres, error) {
 		return nil, fmt.Errorf("panic/hang: %s", msg)
 	}
 	if err != nil {
-		return nil, err
+		return out, err // out.Chain is set when the readers were built and the error came while reading
 	}
 	return out, nil
 }
